@@ -20,5 +20,10 @@ with open("/verif/seeded/REPORT.md", "w") as fh:
     for r in rows:
         fh.write(f"| {r[0]} | {r[1]} | {r[2]} | {r[3]} | {r[4]} |\n")
     d = sum(1 for r in rows if r[2].startswith("detected"))
-    fh.write(f"\nquick tier: {d}/{len(rows)} detected.\n")
+    own = 0
+    for f2 in sorted(glob.glob("/verif/seeded/*/meta.json")):
+        m2 = json.load(open(f2))
+        pid = m2["property"]
+        own += bool(m2.get("checks", {}).get(f"{pid}@quick", {}).get("detected"))
+    fh.write(f"\nquick tier: {own}/{len(rows)} detected by the check of the property the change was written for; {d}/{len(rows)} by that check or the sibling check named in the row.\n")
 print(open("/verif/seeded/REPORT.md").read()[-300:])
